@@ -901,6 +901,11 @@ inductive TItem where
   /-- request `k` / bootstrap attempt `j` was made by the broker-unaware request instance `u` -/
   | uattr (k : Nat) (u : Nat)
   | battr (j : Nat) (u : Nat)
+  /-- the broker-unaware request instance `u` serves the metadata load operation `o` -/
+  | uop (u : Nat) (o : Nat)
+  /-- request `k` was written to connection `cid`; the client told connection `cid` to close -/
+  | wrote (k : Nat) (cid : Nat)
+  | lose (cid : Nat)
   /-- the simulated network saw a connection attempt / a frame (recorded after `close()` only) -/
   | net (what : String)
   deriving Repr
